@@ -201,10 +201,11 @@ def writeEnumEntry (u : Option String) (enc : Encoding) (kv : PyVal × String) :
   | .error e => .error e
   | .ok v => .ok (mkEl u "Enumeration" [("label", kv.2), ("value", v)] [])
 
-/-- The exponents of a polynomial that `scale` / `offset` can express: `[1]`, or `0` and `1` once each. -/
+/-- The exponents of a polynomial that `scale` / `offset` can express and the loader re-creates in the same order:
+    `[1]`, or `[0, 1]`. -/
 def linearShape (cs : List PolyTerm) : Bool :=
   let es := cs.map (·.exp)
-  es == [1] || es == [0, 1] || es == [1, 0]
+  es == [1] || es == [0, 1]
 
 /-- `scale` / `offset` attributes of a time type's `<Encoding>`: the degree-1 / degree-0 coefficients of a *linear*
     polynomial default calibrator (what loading turns the two attributes back into).  Any other default calibrator is
@@ -251,7 +252,12 @@ def writeParameterType (u : Option String) (t : LPType) : LoadM XmlNode :=
           .ok (mkEl u t.tag [("name", t.name)]
             ([mkEl u "Encoding" (unitAttr t.unit ++ so) [encEl]]
               ++ timeReference u t))
-    | _ => .error .value
+    | _ =>
+      -- a time type on a string / binary encoding: no scale or offset to derive
+      match writeEncoding u t.enc with
+      | .error e => .error e
+      | .ok encEl =>
+        .ok (mkEl u t.tag [("name", t.name)] ([mkEl u "Encoding" (unitAttr t.unit) [encEl]] ++ timeReference u t))
   else
     match writeEncoding u t.enc with
     | .error e => .error e
